@@ -3,6 +3,7 @@ package checks
 import (
 	"encoding/json"
 	"fmt"
+	"os"
 	"strings"
 	"time"
 
@@ -31,6 +32,7 @@ type c05scn struct {
 	threads [][]Op
 	heavy   bool // contains a whole-spec validation
 	shared  string
+	cold    bool // heavy scenario that nevertheless starts from an empty regexp cache
 }
 
 var (
@@ -39,6 +41,7 @@ var (
 	c05a3 = Op{Kind: "against", Def: `{"anyOf":[{"type":"integer"},{"type":"string","pattern":"^a+$"}]}`, Val: `"aa"`}
 	c05a4 = Op{Kind: "against", Def: `{"type":"number","maximum":2,"multipleOf":0.5}`, Val: `3`}
 	c05a5 = Op{Kind: "against", Def: `{"oneOf":[{"type":"string"},{"type":"integer"},{"maximum":2}]}`, Val: `1`}
+	c05a6 = Op{Kind: "against", Def: `{"type":"string","pattern":"^fresh+$"}`, Val: `"fresh"`}
 	c05p1 = Op{Kind: "param", Def: c04params[8], Val: `[]string:aa|b`}
 	c05h1 = Op{Kind: "header", Def: c04headers[0], Val: `int32:3`}
 	c05sA = Op{Kind: "specdef", Def: c05docA}
@@ -63,6 +66,9 @@ func c05scenarios(quick bool) []c05scn {
 		{name: "setter ∥ spec", heavy: true, threads: [][]Op{{c05on}, {c05sB}}},
 		{name: "spec ∥ spec", heavy: true, threads: [][]Op{{c05sA}, {c05sB}}},
 		{name: "spec ∥ one-shot", heavy: true, threads: [][]Op{{c05sA}, {c05a1}}},
+		// the path helpers of spec validation and a schema with a pattern nobody compiled yet both go to the
+		// regexp cache: from an empty cache (the warm-up is where a cache is written)
+		{name: "spec (cold regexp cache) ∥ one-shot with a new pattern", heavy: true, cold: true, threads: [][]Op{{c05sB}, {c05a6}}},
 	}
 	if !quick {
 		s = append(s,
@@ -138,6 +144,9 @@ func c05worker(c *hx.Ctx) int {
 	scns := c05scenarios(c.Quick())
 	light := 0
 	for si, s := range scns {
+		if only := os.Getenv("VERIF_C05_ONLY"); only != "" && !strings.Contains(s.name, only) {
+			continue // debugging aid: one scenario
+		}
 		if c.Expired() {
 			rep.Exhaustive = false
 			break
@@ -168,9 +177,9 @@ func c05worker(c *hx.Ctx) int {
 		scn.Setup = func() {
 			resetPools()
 			validate.SetContinueOnErrors(false)
-			if !s.heavy {
+			if !s.heavy || s.cold {
 				validate.Pattern("flush", "query", "x", "^verif-flush$") // state flush, see c15.go
-				validate.VerifSetRegexpCache() // heavy scenarios keep the (warm) regexp cache: ~1000 lock-free lookups
+				validate.VerifSetRegexpCache()                           // heavy scenarios keep the (warm) regexp cache: ~1000 lock-free lookups
 			}
 			switch s.shared {
 			case "schema":
